@@ -1,24 +1,25 @@
 /-
-  C10 lemmas, part 10: invariants of the automaton (`Inv`), the run-time side conditions (`Good`), and the
+  C10 lemmas, part 10: invariants of the automaton (`Inv`), the run-time side condition (`Good`), and the
   step at which a pending line turns out complete.
 -/
 import Echse.Lemmas.Ical9
 namespace Echse.Ical
 
 /-- skeleton and line agree -/
-def Inv (A : Abs) : Prop := (A.sc.empty = true ↔ A.cur = []) ∧ A.cur.length ≤ A.sc.raw
+def Inv (A : Abs) : Prop :=
+  (A.sc.empty = true ↔ A.cur = []) ∧ A.cur.length ≤ A.sc.raw ∧ (A.sc.sp = true → A.sc.empty = false)
 
-theorem inv_init : Inv {} := ⟨by simp, by simp⟩
+theorem inv_init : Inv {} := ⟨by simp, by simp, by simp⟩
 
 theorem plainA_inv (A : Abs) (c : Byte) (h : Inv A) : Inv (plainA A c) := by
   unfold plainA plainSc Inv
   by_cases h1 : c = CR
-  · simp only [h1, true_or, if_true]; exact ⟨h.1, by have := h.2; omega⟩
+  · simp only [h1, true_or, if_true]; exact ⟨h.1, by have := h.2.1; omega, h.2.2⟩
   · by_cases h2 : c = NL
-    · simp only [h2, or_true, if_true, if_neg nl_ne_cr]; exact ⟨h.1, by have := h.2; omega⟩
+    · simp only [h2, or_true, if_true, if_neg nl_ne_cr]; exact ⟨h.1, by have := h.2.1; omega, h.2.2⟩
     · simp only [h1, h2, or_self, if_false]
-      refine ⟨by simp, ?_⟩
-      have := h.2; simp; omega
+      refine ⟨by simp, ?_, by simp⟩
+      have := h.2.1; simp; omega
 
 theorem flushA_inv (A : Abs) : Inv (flushA A) := by
   unfold Inv; rw [flushA_sc, flushA_cur]; simp
@@ -29,7 +30,7 @@ theorem stepA_inv (A : Abs) (c : Byte) (h : Inv A) : Inv (stepA A c) := by
   · split
     · rename_i hp hf
       rw [stepSc_pend_fold _ _ hp hf]
-      exact ⟨h.1, by have := h.2; show A.cur.length ≤ A.sc.raw + 1; omega⟩
+      exact ⟨h.1, by have := h.2.1; show A.cur.length ≤ A.sc.raw + 1; omega, h.2.2⟩
     · exact plainA_inv _ _ (flushA_inv A)
   · exact plainA_inv _ _ h
 
@@ -38,9 +39,8 @@ theorem runA_inv (A : Abs) (l : List Byte) (h : Inv A) : Inv (runA A l) := by
   | nil => exact h
   | cons c l ih => rw [runA_cons]; exact ih _ (stepA_inv A c h)
 
-/-- the side conditions at one position: the logical line is short, and no fold continues an empty line -/
-def okAt (s : Sc) (rest : List Byte) : Bool :=
-  decide (s.raw < 1000) && !(s.pend && s.empty && isFold (rest.headD 0))
+/-- the side condition at one position: the logical line is short (the bytes to come play no part) -/
+def okAt (s : Sc) (_rest : List Byte) : Bool := decide (s.raw < 1000)
 
 def Good (s : Sc) (rest : List Byte) : Prop := allSc okAt s rest = true
 
@@ -67,8 +67,7 @@ theorem good_raw (s : Sc) (l : List Byte) (h : Good s l) : (runSc s l).raw < 100
   have := good_append s l [] (by simpa using h)
   have := good_head _ _ this
   unfold okAt at this
-  simp at this
-  exact this.1
+  simpa using this
 
 theorem okAt_init (l : List Byte) : okAt {} l = true := by
   unfold okAt; simp
